@@ -36,10 +36,10 @@ def _mk(su: Setup, layout: tuple[int, ...], pool_to: int | None, behaviours: tup
 @harness(
     "C07", "pool_conc",
     quick=[{"ct": ct, "N": n, "P": 1, "_pre": f"lay == {lay} and beh <= 1 and {mode}"}
-           for ct in ("h11", "h2", "h1-on-h2-pool") for n in (1, 2) for lay in (1, 2, 3)
+           for (ct, n) in (("h11", 1), ("h11", 2), ("h2", 1), ("h1-on-h2-pool", 1)) for lay in (2, 3)
            for mode in ("cancel == 0 and d0 <= 30", "cancel > 0 and d0 == 0 and c0 == 0")],
-    per_prop={p: {"quick": [{"ct": ct, "N": n, "P": 1, "_pre": f"lay == {lay} and beh <= 1 and pto == 0 and {mode}"}
-                            for ct in ("h11", "h2", "h1-on-h2-pool") for n in (1, 2) for lay in (2, 3)
+    per_prop={p: {"quick": [{"ct": ct, "N": 1, "P": 1, "_pre": f"lay == {lay} and beh <= 1 and pto == 0 and {mode}"}
+                            for ct in ("h11", "h2") for lay in (3,)
                             for mode in ("cancel == 0 and d0 <= 30", "cancel > 0 and d0 == 0 and c0 == 0")]}
               for p in ("C01", "C04", "C08", "C15")},
     thorough=[{"ct": ct, "N": n, "P": 2, "_pre": f"lay == {lay} and cancel == 0 and d0 % 4 == {r}"}
